@@ -1338,6 +1338,262 @@ File(
             field_vals(&self.sp_headers(), ctype_name()).len() == 0 ==> exists|v: HeaderValue| hm_view(&res.sp_headers()) == hm_view(&self.sp_headers()).push((ctype_name(), v)), // id: content_type_default_only_when_unset [C07,C16]
 //@@ end
 }
+// ---- added root certificates: part of the settings copy they were added to (C16; what TLS does with them is C14, outside)
+impl BaseSettings {
+//@@ fn src/request/settings.rs impl~BaseSettings add_root_certificate props=C16,C14
+//@@ rw R1
+Arc::make_mut(
+//@@ =>
+vp_arc_make_mut(
+//@@ contract
+        ensures
+            final(self).root_certificates.0@ == old(self).root_certificates.0@.push(cert), // id: root_added_to_this_copy_only [C16,C14]
+            **final(self) == (BaseSettings { root_certificates: final(self).root_certificates, ..**old(self) }),
+//@@ end
+}
+impl Session {
+//@@ fn src/request/session.rs impl~Session add_root_certificate props=C16,C14
+//@@ contract
+        ensures
+            final(self)@.root_certificates.0@ == old(self)@.root_certificates.0@.push(cert), // id: session_root_added_to_this_session_only [C16,C14]
+            final(self)@ == (BaseSettings { root_certificates: final(self)@.root_certificates, ..old(self)@ }),
+//@@ end
+}
+impl<B> RequestBuilder<B> {
+//@@ fn src/request/builder.rs impl<B>~RequestBuilder<B> add_root_certificate props=C16,C14
+//@@ contract
+        ensures
+            res.sp_settings().root_certificates.0@ == self.sp_settings().root_certificates.0@.push(cert), // id: request_root_added_to_this_request_only [C16,C14]
+            res.sp_settings() == (BaseSettings { root_certificates: res.sp_settings().root_certificates, ..self.sp_settings() }),
+            res.sp_headers() == self.sp_headers(), res.sp_url() == self.sp_url(), res.sp_method() == self.sp_method(), res.sp_body() == self.sp_body(),
+//@@ end
+}
+// ---- serde-backed body setters: serialisation is serde's (assumed, `json_bytes` / `form_bytes` stand for its output)
+pub uninterp spec fn json_bytes<T>(v: T) -> Option<Seq<u8>>;
+#[verifier::external_body] #[verifier::allow(undeclared_external_trait)]
+pub fn vp_json_to_vec<T: serde::Serialize>(value: &T) -> (r: std::result::Result<Vec<u8>, serde_json::Error>)
+    ensures (r is Ok <==> json_bytes(*value) is Some), r matches Ok(v) ==> json_bytes(*value) == Some(v@) { serde_json::to_vec(value) }
+pub uninterp spec fn form_bytes<T>(v: T) -> Option<Seq<u8>>;
+#[verifier::external_body] #[verifier::allow(undeclared_external_trait)]
+pub fn vp_form_to_bytes<T: serde::Serialize>(value: &T) -> (r: std::result::Result<Vec<u8>, serde_urlencoded::ser::Error>)
+    ensures (r is Ok <==> form_bytes(*value) is Some), r matches Ok(v) ==> form_bytes(*value) == Some(v@) { serde_urlencoded::to_string(value).map(|s| s.into_bytes()) }
+pub assume_specification [<Error as From<serde_json::Error>>::from] (e: serde_json::Error) -> (r: Error);
+pub assume_specification [<Error as From<serde_urlencoded::ser::Error>>::from] (e: serde_urlencoded::ser::Error) -> (r: Error);
+#[verifier::external_body] pub broadcast proof fn axiom_as_ref_bytes_vec(v: Vec<u8>) ensures #[trigger] as_ref_bytes(v) == v@ { }
+impl<B> RequestBuilder<B> {
+//@@ fn src/request/builder.rs impl<B>~RequestBuilder<B> json attr=feature~=~"json" props=C07,C16 vattr=allow(undeclared_external_trait)
+//@@ sigrw R11
+Result<RequestBuilder<body::Bytes<Vec<u8>>>>
+//@@ =>
+Result<RequestBuilder<Bytes<Vec<u8>>>>
+//@@ rw R1
+serde_json::to_vec(value)
+//@@ =>
+vp_json_to_vec(value)
+//@@ rw R1
+self.headers
+            .entry(http::header::CONTENT_TYPE)
+            .or_insert(HeaderValue::from_static(@@1))
+//@@ =>
+vp_entry_or_insert(&mut self.headers, vp_hn_content_type(), vp_hv_from_static(@@1))
+//@@ rw R11
+body::Bytes(
+//@@ =>
+Bytes(
+//@@ splice before
+let body =
+//@@ with
+        broadcast use axiom_as_ref_bytes_vec;
+//@@ contract
+        ensures
+            res is Ok <==> json_bytes(*value) is Some, // id: json_setter_fails_only_when_serialisation_fails [C07]
+            res matches Ok(r) ==> Some(r.sp_body().octets()) == json_bytes(*value), // id: json_body_is_the_serialised_value [C07]
+            res matches Ok(r) ==> r.sp_settings() == self.sp_settings() && r.sp_url() == self.sp_url() && r.sp_method() == self.sp_method(), // id: json_setter_keeps_the_rest_of_the_request [C16]
+            res matches Ok(r) ==> (field_vals(&self.sp_headers(), ctype_name()).len() > 0 ==> hm_view(&r.sp_headers()) == hm_view(&self.sp_headers())), // id: callers_content_type_is_kept [C07,C16]
+            res matches Ok(r) ==> (field_vals(&self.sp_headers(), ctype_name()).len() == 0 ==> exists|v: HeaderValue| hm_view(&r.sp_headers()) == hm_view(&self.sp_headers()).push((ctype_name(), v))), // id: content_type_default_only_when_unset [C07,C16]
+//@@ end
+//@@ fn src/request/builder.rs impl<B>~RequestBuilder<B> form attr=feature~=~"form" props=C07,C16 vattr=allow(undeclared_external_trait)
+//@@ sigrw R11
+Result<RequestBuilder<body::Bytes<Vec<u8>>>>
+//@@ =>
+Result<RequestBuilder<Bytes<Vec<u8>>>>
+//@@ rw R1
+serde_urlencoded::to_string(value)?.into_bytes()
+//@@ =>
+vp_form_to_bytes(value)?
+//@@ rw R1
+self.headers
+            .entry(http::header::CONTENT_TYPE)
+            .or_insert(HeaderValue::from_static(@@1))
+//@@ =>
+vp_entry_or_insert(&mut self.headers, vp_hn_content_type(), vp_hv_from_static(@@1))
+//@@ rw R11
+body::Bytes(
+//@@ =>
+Bytes(
+//@@ splice before
+let body =
+//@@ with
+        broadcast use axiom_as_ref_bytes_vec;
+//@@ contract
+        ensures
+            res is Ok <==> form_bytes(*value) is Some, // id: form_setter_fails_only_when_serialisation_fails [C07]
+            res matches Ok(r) ==> Some(r.sp_body().octets()) == form_bytes(*value), // id: form_body_is_the_serialised_value [C07]
+            res matches Ok(r) ==> r.sp_settings() == self.sp_settings() && r.sp_url() == self.sp_url() && r.sp_method() == self.sp_method(), // id: form_setter_keeps_the_rest_of_the_request [C16]
+            res matches Ok(r) ==> (field_vals(&self.sp_headers(), ctype_name()).len() > 0 ==> hm_view(&r.sp_headers()) == hm_view(&self.sp_headers())), // id: callers_content_type_is_kept [C07,C16]
+            res matches Ok(r) ==> (field_vals(&self.sp_headers(), ctype_name()).len() == 0 ==> exists|v: HeaderValue| hm_view(&r.sp_headers()) == hm_view(&self.sp_headers()).push((ctype_name(), v))), // id: content_type_default_only_when_unset [C07,C16]
+//@@ end
+}
+// ---- params: a loop over any IntoIterator of pairs
+/// the items an iterator yields before its first `None` (assumed finite: a loop over an endless iterator does not return)
+pub uninterp spec fn iter_items<I: Iterator>(it: &I) -> Seq<I::Item>;
+pub uninterp spec fn into_iter_items<P: IntoIterator>(p: P) -> Seq<P::Item>;
+#[verifier::external_body] #[verifier::allow(undeclared_external_trait)]
+pub fn vp_into_iter<P: IntoIterator>(p: P) -> (it: P::IntoIter) ensures iter_items(&it) == into_iter_items(p) { p.into_iter() }
+#[verifier::external_body] #[verifier::allow(undeclared_external_trait)]
+pub fn vp_iter_next<I: Iterator>(it: &mut I) -> (r: Option<I::Item>)
+    ensures
+        iter_items(old(it)).len() == 0 ==> r is None,
+        iter_items(old(it)).len() > 0 ==> r == Some(iter_items(old(it))[0]) && iter_items(final(it)) == iter_items(old(it)).skip(1),
+{ it.next() }
+/// `pair.borrow()` for `Item: Borrow<(K, V)>`
+pub uninterp spec fn borrow_pair_spec<I, K, V>(i: I) -> (K, V);
+#[verifier::external_body] #[verifier::allow(undeclared_external_trait)]
+pub fn vp_borrow_pair<'a, I: std::borrow::Borrow<(K, V)>, K, V>(i: &'a I) -> (r: &'a (K, V)) ensures *r == borrow_pair_spec::<I, K, V>(*i) { i.borrow() }
+/// `url.query_pairs_mut().append_pair(key.as_ref(), &value.to_string())` with key and value behind references
+#[verifier::external_body] pub fn vp_append_pair_ref<K: AsRef<str>, V: ToString>(u: &mut Url, key: &K, value: &V)
+    ensures url_query_pairs(final(u)) == url_query_pairs(old(u)).push((as_ref_str_spec(*key), to_string_spec(*value))),
+        url_host(final(u)) == url_host(old(u)), url_port(final(u)) == url_port(old(u)), url_path(final(u)) == url_path(old(u)),
+{ u.query_pairs_mut().append_pair(key.as_ref(), &value.to_string()); }
+/// the query pairs a sequence of items stands for, in order
+pub open spec fn items_to_pairs<I, K, V>(items: Seq<I>) -> Seq<(Seq<char>, Seq<char>)> decreases items.len() {
+    if items.len() == 0 { Seq::empty() } else {
+        items_to_pairs::<I, K, V>(items.drop_last()).push((as_ref_str_spec(borrow_pair_spec::<I, K, V>(items.last()).0), to_string_spec(borrow_pair_spec::<I, K, V>(items.last()).1)))
+    }
+}
+impl<B> RequestBuilder<B> {
+//@@ fn src/request/builder.rs impl<B>~RequestBuilder<B> params props=C07,C16 vattr=allow(undeclared_external_trait)
+//@@ block R8
+for pair in pairs.into_iter()
+//@@ =>
+{
+    let ghost old_self = self;
+    let mut it = vp_into_iter(pairs);
+    let ghost all = iter_items(&it);
+    let ghost q0 = url_query_pairs(&self.url);
+    let ghost (h0, p0, path0) = (url_host(&self.url), url_port(&self.url), url_path(&self.url));
+    loop
+        invariant_except_break
+            iter_items(&it).len() <= all.len(), iter_items(&it) == all.skip(all.len() - iter_items(&it).len()),
+            url_query_pairs(&self.url) == q0 + items_to_pairs::<P::Item, K, V>(all.take(all.len() - iter_items(&it).len())), // id: every_pair_is_appended_in_order [C07]
+            url_host(&self.url) == h0, url_port(&self.url) == p0, url_path(&self.url) == path0,
+            self.method == old_self.method, self.headers == old_self.headers, self.base_settings == old_self.base_settings, self.body == old_self.body,
+        ensures
+            url_query_pairs(&self.url) == q0 + items_to_pairs::<P::Item, K, V>(all),
+            url_host(&self.url) == h0, url_port(&self.url) == p0, url_path(&self.url) == path0,
+            self.method == old_self.method, self.headers == old_self.headers, self.base_settings == old_self.base_settings, self.body == old_self.body,
+        decreases iter_items(&it).len(),
+    {
+        let ghost n = all.len() - iter_items(&it).len();
+        match vp_iter_next(&mut it) {
+            Some(pair) => {
+                proof {
+                    assert(pair == all[n]);
+                    assert(all.take(n + 1).drop_last() =~= all.take(n));
+                    assert(all.take(n + 1).last() == all[n]);
+                }
+@@BODY
+                proof { assert(url_query_pairs(&self.url) =~= q0 + items_to_pairs::<P::Item, K, V>(all.take(n + 1))); }
+            }
+            None => { proof { assert(all.take(all.len() as int) =~= all); } break; }
+        }
+    }
+}
+//@@ method R1
+borrow
+//@@ =>
+vp_borrow_pair(&@@RECV)
+//@@ rw R1
+self.url.query_pairs_mut().append_pair(key.as_ref(), &value.to_string());
+//@@ =>
+vp_append_pair_ref(&mut self.url, key, value);
+//@@ contract
+        ensures
+            url_query_pairs(&res.sp_url()) == url_query_pairs(&self.sp_url()) + items_to_pairs::<P::Item, K, V>(into_iter_items(pairs)), // id: all_given_pairs_are_appended_in_order [C07]
+            url_path(&res.sp_url()) == url_path(&self.sp_url()) && url_host(&res.sp_url()) == url_host(&self.sp_url()) && url_port(&res.sp_url()) == url_port(&self.sp_url()),
+            res.sp_settings() == self.sp_settings() && res.sp_headers() == self.sp_headers() && res.sp_method() == self.sp_method() && res.sp_body() == self.sp_body(), // id: params_touches_only_the_url [C07,C16]
+//@@ end
+}
+// ---- query: the URL-encoded representation of a serde value, appended by serde_urlencoded (assumed)
+pub uninterp spec fn serde_pairs<T>(v: T) -> Option<Seq<(Seq<char>, Seq<char>)>>;
+#[verifier::external_body] #[verifier::allow(undeclared_external_trait)]
+pub fn vp_serialize_into_query<T: serde::Serialize>(u: &mut Url, value: &T) -> (r: std::result::Result<(), serde_urlencoded::ser::Error>)
+    ensures
+        r is Ok <==> serde_pairs(*value) is Some,
+        r is Ok ==> url_query_pairs(final(u)) == url_query_pairs(old(u)) + serde_pairs(*value).unwrap(),
+        url_host(final(u)) == url_host(old(u)), url_port(final(u)) == url_port(old(u)), url_path(final(u)) == url_path(old(u)),
+{ value.serialize(serde_urlencoded::Serializer::new(&mut u.query_pairs_mut())).map(|_| ()) }
+impl<B> RequestBuilder<B> {
+//@@ fn src/request/builder.rs impl<B>~RequestBuilder<B> query attr=feature~=~"form" props=C07,C16 vattr=allow(undeclared_external_trait)
+//@@ rw R1
+value.serialize(serde_urlencoded::Serializer::new(&mut self.url.query_pairs_mut()))
+//@@ =>
+vp_serialize_into_query(&mut self.url, value)
+//@@ contract
+        ensures
+            res is Ok <==> serde_pairs(*value) is Some, // id: query_setter_fails_only_when_serialisation_fails [C07]
+            res matches Ok(r) ==> url_query_pairs(&r.sp_url()) == url_query_pairs(&self.sp_url()) + serde_pairs(*value).unwrap(), // id: serialised_pairs_are_appended_in_order [C07]
+            res matches Ok(r) ==> url_path(&r.sp_url()) == url_path(&self.sp_url()) && url_host(&r.sp_url()) == url_host(&self.sp_url()) && url_port(&r.sp_url()) == url_port(&self.sp_url()),
+            res matches Ok(r) ==> r.sp_settings() == self.sp_settings() && r.sp_headers() == self.sp_headers() && r.sp_method() == self.sp_method() && r.sp_body() == self.sp_body(), // id: query_touches_only_the_url [C07,C16]
+//@@ end
+}
+// ---- streaming JSON body: serialised at write time by serde_json (assumed)
+#[verifier::external_trait_specification]
+pub trait ExSerialize { type ExternalTraitSpecificationFor: serde::Serialize; }
+//@@ item src/request/body.rs struct Json vis=pub
+//@@ end
+/// `to_writer(BufWriter::new(writer), &self.0)` then `flush`: the serialised value is written (assumed; serde_json, BufWriter)
+#[verifier::external_body]
+pub fn vp_json_to_writer<B: serde::Serialize, W: Write>(writer: &mut W, value: &B) -> (r: IoResult<()>)
+    ensures r is Ok ==> json_bytes(*value) is Some && (*final(writer)).sent() == (*old(writer)).sent() + json_bytes(*value).unwrap(),
+{ let mut w = BufWriter::new(writer); serde_json::ser::to_writer(&mut w, value)?; w.flush()?; Ok(()) }
+impl<B: serde::Serialize> Json<B> {
+//@@ fn src/request/body.rs impl<B:~Serialize>~Body~for~Json<B> kind rename=kind_impl props=C07
+//@@ contract
+        ensures res matches Ok(BodyKind::Chunked), final(self).0 == old(self).0, // id: streamed_json_is_sent_chunked [C07]
+//@@ end
+}
+impl<B: serde::Serialize> Body for Json<B> {
+    open spec fn octets(&self) -> Seq<u8> { match json_bytes(self.0) { Some(b) => b, None => Seq::empty() } }
+    open spec fn kind_spec(&self) -> BodyKind { BodyKind::Chunked }
+    fn kind(&mut self) -> (r: IoResult<BodyKind>) { self.kind_impl() }
+    fn write<W: Write>(&mut self, writer: W) -> (r: IoResult<()>) { let mut writer = writer; vp_json_to_writer(&mut writer, &self.0) }
+    fn content_type(&mut self) -> (r: IoResult<Option<String>>) { Ok(None) }
+}
+impl<B> RequestBuilder<B> {
+//@@ fn src/request/builder.rs impl<B>~RequestBuilder<B> json_streaming attr=feature~=~"json" props=C07,C16
+//@@ sigrw R11
+RequestBuilder<body::Json<T>>
+//@@ =>
+RequestBuilder<Json<T>>
+//@@ rw R1
+self.headers
+            .entry(http::header::CONTENT_TYPE)
+            .or_insert(HeaderValue::from_static(@@1))
+//@@ =>
+vp_entry_or_insert(&mut self.headers, vp_hn_content_type(), vp_hv_from_static(@@1))
+//@@ rw R11
+body::Json(
+//@@ =>
+Json(
+//@@ contract
+        ensures
+            res.sp_body().0 == value, // id: json_streaming_setter_takes_the_given_value [C07]
+            res.sp_settings() == self.sp_settings() && res.sp_url() == self.sp_url() && res.sp_method() == self.sp_method(), // id: json_streaming_setter_keeps_the_rest_of_the_request [C16]
+            field_vals(&self.sp_headers(), ctype_name()).len() > 0 ==> hm_view(&res.sp_headers()) == hm_view(&self.sp_headers()), // id: callers_content_type_is_kept [C07,C16]
+            field_vals(&self.sp_headers(), ctype_name()).len() == 0 ==> exists|v: HeaderValue| hm_view(&res.sp_headers()) == hm_view(&self.sp_headers()).push((ctype_name(), v)), // id: content_type_default_only_when_unset [C07,C16]
+//@@ end
+}
 /// `r.expect(msg)`: hands the value out when `r` is Ok and panics otherwise (a panic is not a return, so nothing is claimed for it)
 #[verifier::external_body] pub fn vp_expect_ok<T>(r: Result<T>, msg: &str) -> (t: T) ensures r matches Ok(v) && v == t { r.expect(msg) }
 impl<B: Body> RequestBuilder<B> {
